@@ -61,6 +61,29 @@ def get_ed():
     return _ED[2]
 
 
+def in_loop(fn):
+    """run fn() inside the editor's event loop (handlers may create background tasks)"""
+    import asyncio
+    ed = get_ed()
+
+    async def go():
+        r = fn()
+        await asyncio.sleep(0)
+        return r
+
+    return ed._loop.run_until_complete(go())
+
+
+def feed(ed, keys):
+    import editor as E
+    E.Editor.feed(ed, keys)
+
+
+def flush(ed):
+    import editor as E
+    E.Editor.flush(ed)
+
+
 def reset_ed(text, cur, vi, maxsize, ring):
     ed = get_ed()
     clip = SpyClipboard(max_size=maxsize)
@@ -111,37 +134,91 @@ def enc_ring(ring) -> str:
     return " ".join([str(len(ring))] + [f"{ty} {enc_str(t)}" for ty, t in ring])
 
 
-def emacs_state_line(ed) -> str:
-    b = ed.buffer
-    d = b.document_before_paste
-    dbp = "N" if d is None else f"D {enc_str(d.text)} {d.cursor_position}"
-    return f"{enc_str(b.text)} {b.cursor_position} {enc_ring(ring_of(ed))} {dbp}"
-
-
 def emacs_apply(ed, op):
     """op = [arg, cmd, params...]"""
     a, cmd = op[0], op[1]
     if cmd == "goto":
         ed.buffer.cursor_position = op[2]
-        ed.feed(keys_of("\x1b"))
-        ed.flush()
+        feed(ed, keys_of("\x1b"))
+        flush(ed)
         return
     if cmd == "reg":
         ed.buffer.cursor_position = op[2]
-        ed.feed(keys_of("\x00"))
+        feed(ed, keys_of("\x00"))
         ed.buffer.cursor_position = op[3]
-        ed.feed(keys_of("\x17" if op[4] else "\x1bw"))
+        feed(ed, keys_of("\x17" if op[4] else "\x1bw"))
         return
     ks = arg_keys(a)
     if ks:
         # the first character after Escape and every further digit are separate key presses
-        ed.feed(keys_of(ks[:2]))
+        feed(ed, keys_of(ks[:2]))
         for ch in ks[2:]:
-            ed.feed(keys_of(ch))
+            feed(ed, keys_of(ch))
     if cmd == "ins":
-        ed.feed(keys_of(chr(op[2])))
+        feed(ed, keys_of(chr(op[2])))
     else:
-        ed.feed(keys_of(EMACS_KEYS[cmd]))
+        feed(ed, keys_of(EMACS_KEYS[cmd]))
+
+
+VI_KEYS = {"x": "x", "X": "X", "s": "s", "D": "D", "C": "C", "dd": "dd", "yy": "yy", "p": "p", "P": "P"}
+VIS_KEY = {"c": "v", "l": "V", "b": "\x16"}
+
+
+def regs_of(ed):
+    return sorted((k, TYR[v.type], v.text) for k, v in ed.app.vi_state.named_registers.items())
+
+
+def vi_apply(ed, op):
+    """op = [count, cmd, params...]; the editor is in navigation mode before and after"""
+    cnt, cmd = op[0], op[1]
+    if cmd == "goto":
+        ed.buffer.cursor_position = op[2]
+        return
+    if cmd == "vis":
+        ty, a, b, act, reg = op[2:7]
+        ed.buffer.cursor_position = a
+        feed(ed, keys_of(VIS_KEY[ty]))
+        ed.buffer.cursor_position = b
+        if reg is not None:
+            feed(ed, keys_of('"'))
+            feed(ed, keys_of(chr(reg)))
+        feed(ed, keys_of(act))
+        return
+    if cmd == "rp":
+        feed(ed, keys_of('"'))
+        feed(ed, keys_of(chr(op[2])))
+        feed(ed, keys_of("P" if op[3] else "p"))
+        return
+    for ch in VI_KEYS[cmd]:
+        feed(ed, keys_of(ch))
+    if cmd in ("s", "C"):
+        feed(ed, keys_of("\x1b"))
+        flush(ed)
+
+
+def vi_count_keys(ed, op):
+    if op[0] != "N" and op[1] not in ("goto", "vis"):
+        for ch in str(op[0]):
+            feed(ed, keys_of(ch))
+
+
+def vi_op_line(op) -> str:
+    if op[1] == "vis":
+        ty, a, b, act, reg = op[2:7]
+        return f"v N vis {ty} {a} {b} {act} {'N' if reg is None else reg}"
+    return "v " + " ".join(str(x) for x in op)
+
+
+def vi_init_line(case) -> str:
+    return (f"vinit {enc_str(case['text'])} {case['cur']} {case['max']} "
+            + enc_ring([tuple(x) for x in case["ring"]]))
+
+
+def vi_reset(case):
+    from prompt_toolkit.key_binding.vi_state import InputMode
+    ed = reset_ed(case["text"], case["cur"], True, case["max"], case["ring"])
+    ed.app.vi_state.input_mode = InputMode.NAVIGATION
+    return ed
 
 
 def seqs_of(case):
@@ -165,6 +242,10 @@ def model_lines(case):
         for seq in seqs_of(case):
             out.append(emacs_init_line(case))
             out += [emacs_op_line(op) for op in seq]
+    elif k == "vi":
+        for seq in seqs_of(case):
+            out.append(vi_init_line(case))
+            out += [vi_op_line(op) for op in seq]
     elif k == "paste":
         for q in case["qs"]:
             out.append(f"paste {enc_str(case['text'])} {q[0]} {q[1]} {enc_str(q[2])} {q[3]} {q[4]}")
@@ -177,16 +258,64 @@ def model_lines(case):
     return out
 
 
+def snap(ed):
+    b = ed.buffer
+    d = b.document_before_paste
+    return {"text": b.text, "cur": b.cursor_position, "ring": ring_of(ed), "nset": ed.session.clipboard.n_set,
+            "dbp": None if d is None else (d.text, d.cursor_position), "regs": regs_of(ed)}
+
+
+def trace_case(case):
+    """drive the real editor once; per sequence: [init snapshot, (op, snapshot after the numeric
+    argument keys, snapshot after the command), ...]"""
+    vi = case["kind"] == "vi"
+    out = []
+    for seq in seqs_of(case):
+        ed = vi_reset(case) if vi else reset_ed(case["text"], case["cur"], False, case["max"], case["ring"])
+        tr = [snap(ed)]
+        for op in seq:
+            mid = None
+            if vi:
+                vi_count_keys(ed, op)
+                mid = snap(ed)
+                vi_apply(ed, op)
+            else:
+                emacs_apply(ed, op)
+            tr.append((op, mid, snap(ed)))
+        out.append(tr)
+    return out
+
+
+_LAST = [None, None]
+
+
+def get_trace(case):
+    """impl_lines and oracle are evaluated one after the other on the same case: drive once"""
+    if _LAST[0] is not case:
+        _LAST[0], _LAST[1] = case, in_loop(lambda: trace_case(case))
+    return _LAST[1]
+
+
+def fmt_emacs(sn) -> str:
+    d = sn["dbp"]
+    dbp = "N" if d is None else f"D {enc_str(d[0])} {d[1]}"
+    return f"{enc_str(sn['text'])} {sn['cur']} {enc_ring(sn['ring'])} {dbp}"
+
+
+def fmt_vi(sn) -> str:
+    regs = sn["regs"]
+    rs = " ".join([str(len(regs))] + [f"{ord(k)} {ty} {enc_str(t)}" for k, ty, t in regs])
+    return f"{enc_str(sn['text'])} {sn['cur']} {enc_ring(sn['ring'])} {rs}"
+
+
 def impl_lines(case):
     k = case["kind"]
     out = []
-    if k == "emacs":
-        for seq in seqs_of(case):
-            ed = reset_ed(case["text"], case["cur"], False, case["max"], case["ring"])
-            out.append(emacs_state_line(ed))
-            for op in seq:
-                emacs_apply(ed, op)
-                out.append(emacs_state_line(ed))
+    if k in ("emacs", "vi"):
+        fmt = fmt_emacs if k == "emacs" else fmt_vi
+        for tr in get_trace(case):
+            out.append(fmt(tr[0]))
+            out += [fmt(a) for _, _, a in tr[1:]]
     elif k == "paste":
         for cur, ty, data, mode, count in case["qs"]:
             try:
@@ -305,6 +434,24 @@ def cases(tier, rng):
         ops = [rand_emacs_op(rng, len(text)) for _ in range(rng.randrange(1, 14))]
         yield {"kind": "emacs", "text": text, "cur": cur, "max": mx, "ring": rand_ring(rng, min(mx, 4)),
                "ops": ops}
+    # ---- vi, exhaustive small scope
+    vmax = 3 if quick else 4
+    for n in range(vmax + 1):
+        seqs = vi_single_seqs(n)
+        for tup in itertools.product(VI_ALPHA, repeat=n):
+            text = "".join(tup)
+            for cur in range(n + 1):
+                yield {"kind": "vi", "text": text, "cur": cur, "max": 3,
+                       "ring": [["c", "R1"], ["l", "r2"]], "seqs": seqs}
+    # ---- vi, random sequences
+    for _ in range(1500 if quick else 40000):
+        n = rng.choice([0, 1, 2, 3, 5, 8, 13, 30])
+        text = rand_text(rng, n)
+        cur = rng.choice([0, len(text), rng.randrange(0, len(text) + 1)])
+        mx = rng.choice([1, 2, 3, 5, 60])
+        ring = [[rng.choice("clb"), rand_text(rng, rng.randrange(0, 4))] for _ in range(rng.randrange(0, min(mx, 3) + 1))]
+        ops = [rand_vi_op(rng, len(text)) for _ in range(rng.randrange(1, 12))]
+        yield {"kind": "vi", "text": text, "cur": cur, "max": mx, "ring": ring, "ops": ops}
     # ---- ring API
     for _ in range(200 if quick else 3000):
         mx = rng.choice([1, 2, 3, 4, 60])
@@ -317,6 +464,51 @@ def cases(tier, rng):
         yield {"kind": "ring", "max": mx, "ops": ops}
     # ---- paste API
     yield from paste_cases(tier, rng)
+
+
+VI_ALPHA = ["a", " ", "\n"]
+REGS = [ord("a"), ord("z"), ord("0"), ord("9"), ord("A"), ord("%")]
+
+
+def vi_single_seqs(n):
+    seqs = []
+    counts = ["N", 1, 2, n + 2, 1000000]
+    for cmd in ("x", "X", "s", "dd", "yy"):
+        for c in counts:
+            seqs.append([[c, cmd], ["N", "P"]])
+            seqs.append([[c, cmd], ["N", "p"]])
+    for cmd in ("D", "C"):
+        seqs.append([["N", cmd], ["N", "p"]])
+        seqs.append([[2, cmd], ["N", "P"]])
+    for c in ("N", 2, 3):
+        seqs.append([[c, "p"]])
+        seqs.append([[c, "P"]])
+    seqs.append([["N", "rp", ord("a"), 0]])
+    for ty in "clb":
+        for a in range(n + 1):
+            for b in range(n + 1):
+                seqs.append([["N", "vis", ty, a, b, "x", None], ["N", "P"]])
+                seqs.append([["N", "vis", ty, a, b, "d", None], ["N", "P"]])
+                seqs.append([["N", "vis", ty, a, b, "y", None], [2, "p"]])
+                seqs.append([["N", "vis", ty, a, b, "y", ord("a")], ["N", "rp", ord("a"), 1], [2, "rp", ord("a"), 0]])
+                seqs.append([["N", "vis", ty, a, b, "d", ord("q")], ["N", "rp", ord("q"), 0]])
+    return seqs
+
+
+def rand_vi_op(rng, n):
+    k = rng.randrange(20)
+    c = rng.choice(["N", "N", "N", 1, 2, 3, max(n, 1), n + 2, 999999, 1000000])
+    if k < 7:
+        return [c, rng.choice(["x", "X", "s", "D", "C", "dd", "yy"])]
+    if k < 10:
+        return [rng.choice(["N", "N", 2, 3]), rng.choice(["p", "P"])]
+    if k < 12:
+        return [rng.choice(["N", "N", 2]), "rp", rng.choice(REGS), rng.randrange(2)]
+    if k < 14:
+        return ["N", "goto", rng.randrange(0, n + 2)]
+    act = rng.choice(["x", "y", "d", "y", "d"])
+    reg = None if act == "x" or rng.random() < 0.4 else rng.choice(REGS)
+    return ["N", "vis", rng.choice("clb"), rng.randrange(0, n + 2), rng.randrange(0, n + 2), act, reg]
 
 
 PASTE_DATA = ["", "x", "xy", "x\ny", "\n", "x\n", "\nx", "x\ny\nz"]
@@ -349,8 +541,356 @@ def paste_cases(tier, rng):
 
 
 # ------------------------------------------------------------------ oracle
+# The property restated over what the REAL editor did (independent of the Lean model).
+KILL_NAME = {"kl": "kill-line", "ld": "unix-line-discard", "kw": "kill-word", "wr": "unix-word-rubout",
+             "bk": "backward-kill-word"}
+
+
+def arg_value(a) -> int:
+    """the numeric argument a command sees (none = 1, M-- = -1, a million or more = 1)"""
+    if a == "N":
+        return 1
+    if a == "-":
+        return -1
+    return 1 if int(a) >= 1000000 else int(a)
+
+
+def paste_spec(T, c, ty, data, mode, n):
+    """text after pasting `data` `n` times at cursor c (n <= 0: zero times)"""
+    n = max(n, 0)
+    if ty == "c":
+        q = min(c + 1, len(T)) if mode == "A" else c
+        return T[:q] + data * n + T[q:]
+    lines = T.split("\n")
+    r = T[:c].count("\n")
+    if ty == "l":
+        pos = r if mode == "B" else r + 1
+        return "\n".join(lines[:pos] + [data] * n + lines[pos:])
+    col = c - (T.rfind("\n", 0, c) + 1) + (0 if mode == "B" else 1)
+    for i, dl in enumerate(data.split("\n")):
+        while len(lines) <= r + i:
+            lines.append("")
+        ln = lines[r + i] + " " * (col - len(lines[r + i]))
+        lines[r + i] = ln[:col] + dl * n + ln[col:]
+    return "\n".join(lines)
+
+
+def _frame(T, T2, c2):
+    """T2 is T with one span removed at position c2: return the span or None"""
+    d = len(T) - len(T2)
+    if d < 0 or c2 > len(T2) or T[:c2] != T2[:c2] or T[c2 + d:] != T2[c2:]:
+        return None
+    return T[c2:c2 + d]
+
+
+def _pushed(b, a, maxsize, bad, site):
+    """number of set_data calls; checks that older ring entries are kept in order"""
+    k = a["nset"] - b["nset"]
+    if k == 0:
+        if a["ring"] != b["ring"]:
+            bad(site, "ring changed without set_data", "ring")
+    elif k == 1:
+        if not a["ring"] or a["ring"] != ([a["ring"][0]] + b["ring"])[:maxsize]:
+            bad(site, "older ring entries lost or reordered", "ring")
+    else:
+        bad(site, "more than one set_data", "ring")
+    if len(a["ring"]) > maxsize:
+        bad(site, "ring longer than max_size", "ring")
+    return k
+
+
+def oracle_emacs_seq(case, tr, bad0):
+    maxsize = case["max"]
+    b = tr[0]
+    prev = None          # (cmd, pushed) of the previous op
+    origin = None        # text before the first kill of the current run of accumulating kills
+    for op, _, a in tr[1:]:
+        arg, cmd = op[0], op[1]
+        T, c, T2, c2 = b["text"], b["cur"], a["text"], a["cur"]
+
+        def bad(site, cond, what):
+            bad0(site, cond, f"{what}: before text={T!r} cur={c} ring={b['ring']} op={op} -> "
+                             f"text={T2!r} cur={c2} ring={a['ring']}")
+
+        if not (0 <= c2 <= len(T2)):
+            bad("Buffer", "cursor out of range", "cursor")
+        this = (cmd, False)
+        if cmd in KILL_NAME:
+            site = "named_commands." + KILL_NAME[cmd]
+            n = arg_value(arg)
+            X = _frame(T, T2, c2)
+            k = _pushed(b, a, maxsize, bad, site)
+            if X is None:
+                bad(site, "frame", "text outside one removed span changed")
+            else:
+                if not (c2 == c or c2 + len(X) == c):
+                    bad(site, "frame", "removed span is not at the cursor")
+                line_before = T[T.rfind("\n", 0, c) + 1:c]
+                if cmd == "kl":
+                    rest = T[c:].split("\n")[0]
+                    want = line_before if n < 0 else ("\n" if T[c:c + 1] == "\n" else rest)
+                    if X != want:
+                        bad(site, "span", "kill-line span")
+                col0 = cmd == "ld" and c > 0 and T[c - 1] == "\n"
+                if cmd == "ld" and X != ("\n" if col0 else line_before):
+                    bad(site, "span", "unix-line-discard span")
+                if k == 1:
+                    this = (cmd, True)
+                    new = a["ring"][0] if a["ring"] else None
+                    same = prev is not None and prev[0] == cmd and cmd in ("kw", "wr", "bk") and arg == "N"
+                    consecutive = same and prev[1]
+                    if consecutive:
+                        want = b["ring"][0][1] + X if cmd == "kw" else X + b["ring"][0][1]
+                    else:
+                        want = X
+                        origin = T
+                    if col0:
+                        bad(site, "column 0 touched the ring", "the column-0 join must not touch the ring")
+                    elif new is None or new != ("c", want):
+                        if same and not prev[1]:
+                            bad(site, "repeat after a kill-word that killed nothing",
+                                "ring top is not the removed text")
+                        elif consecutive:
+                            bad(site, "consecutive kills do not accumulate in text order", "ring top")
+                        else:
+                            bad(site, "ring top != removed text", "ring top")
+                else:
+                    origin = None
+                    if X != "" and not col0:
+                        bad(site, "removed text not on the ring", "removed text lost")
+        elif cmd == "y":
+            n = arg_value(arg)
+            top = b["ring"][0] if b["ring"] else ("c", "")
+            if a["ring"] != b["ring"]:
+                bad("named_commands.yank", "ring changed", "ring")
+            if T2 != paste_spec(T, c, top[0], top[1], "e", n):
+                bad("named_commands.yank", "inserted text != ring top x count", "yank")
+            if a["dbp"] != (T, c):
+                bad("named_commands.yank", "document_before_paste", "snapshot for yank-pop")
+            if prev is not None and prev[1] and prev[0] in KILL_NAME and n == 1 and origin is not None \
+                    and T2 != origin:
+                bad("named_commands.yank", "yank right after kill does not restore the text",
+                    f"text before the kill(s) was {origin!r}")
+        elif cmd == "yp":
+            D = b["dbp"]
+            if prev is not None and prev[0] in ("y", "yp") and D is None:
+                bad("named_commands.yank-pop", "no document_before_paste after yank", "yank-pop")
+            if D is None:
+                if (T2, c2, a["ring"]) != (T, c, b["ring"]):
+                    bad("named_commands.yank-pop", "changed something without a previous yank", "yank-pop")
+            else:
+                want_ring = b["ring"][1:] + b["ring"][:1]
+                if a["ring"] != want_ring:
+                    bad("named_commands.yank-pop", "ring not rotated by one / entry lost", "ring")
+                top = want_ring[0] if want_ring else ("c", "")
+                if T2 != paste_spec(D[0], D[1], top[0], top[1], "e", 1):
+                    bad("named_commands.yank-pop", "previous yank not replaced by the next ring entry", "yank-pop")
+                if a["dbp"] != D:
+                    bad("named_commands.yank-pop", "document_before_paste", "snapshot for yank-pop")
+        elif cmd == "reg":
+            if T != "":
+                lo, hi = sorted([min(op[2], len(T)), min(op[3], len(T))])
+                site = "emacs.kill-region" if op[4] else "emacs.copy-region"
+                k = _pushed(b, a, maxsize, bad, site)
+                if k != 1 or a["ring"][0] != ("c", T[lo:hi]):
+                    bad(site, "ring top != region text", "region")
+                if op[4] and (T2 != T[:lo] + T[hi:] or c2 != lo):
+                    bad(site, "frame", "kill-region removed something else")
+                if not op[4] and T2 != T:
+                    bad(site, "frame", "copy-region changed the text")
+                if op[4] and k == 1:
+                    this = (cmd, True)
+                    origin = T
+        else:
+            if a["ring"] != b["ring"]:
+                bad("named_commands." + cmd, "ring changed", "ring")
+        if cmd not in KILL_NAME and not (cmd == "reg" and op[4]):
+            origin = origin if cmd == "y" else None
+        prev = this
+        b = a
+
+
+def vi_count(a) -> int:
+    return 1 if a == "N" or int(a) >= 1000000 else int(a)
+
+
+def oracle_vi_seq(case, tr, bad0):
+    maxsize = case["max"]
+    for op, b, a in tr[1:]:
+        cnt, cmd = op[0], op[1]
+        T, c, T2 = b["text"], b["cur"], a["text"]
+
+        def bad(site, cond, what):
+            bad0(site, cond, f"{what}: before text={T!r} cur={c} ring={b['ring']} regs={b['regs']} op={op} -> "
+                             f"text={T2!r} cur={a['cur']} ring={a['ring']} regs={a['regs']}")
+
+        if not (0 <= a["cur"] <= len(T2)):
+            bad("Buffer", "cursor out of range", "cursor")
+        n = vi_count(cnt)
+        lines = T.split("\n")
+        r = T[:c].count("\n")
+        ls = T.rfind("\n", 0, c) + 1
+        le = T.find("\n", c)
+        le = len(T) if le < 0 else le
+        site = "vi " + cmd
+        if cmd in ("x", "X", "s", "D", "C"):
+            if cmd == "x":
+                k = min(n, le - c)
+                lo, hi = c, c + k
+            elif cmd == "X":
+                k = min(n, c - ls)
+                lo, hi = c - k, c
+            elif cmd == "s":
+                lo, hi = c, min(c + n, len(T))
+            else:
+                lo, hi = c, le
+            X = T[lo:hi]
+            if T2 != T[:lo] + T[hi:]:
+                bad(site, "frame", "removed something else than the addressed characters")
+            k = _pushed(b, a, maxsize, bad, site)
+            if k == 1 and a["ring"][0] != ("c", X):
+                bad(site, "register != removed text", "register")
+            if k == 0 and X != "":
+                bad(site, "removed text not stored", "register")
+            if a["regs"] != b["regs"]:
+                bad(site, "named registers changed", "registers")
+        elif cmd in ("dd", "yy"):
+            stored = ("l", "\n".join(lines[r:r + n]))
+            k = _pushed(b, a, maxsize, bad, site)
+            if k != 1 or a["ring"][0] != stored:
+                bad(site, "register != the addressed lines", "register")
+            want = T if cmd == "yy" else "\n".join(lines[:r] + lines[r + n:])
+            if T2 != want:
+                bad(site, "removed more than the stored lines" if cmd == "dd" else "frame", "text")
+        elif cmd in ("p", "P", "rp"):
+            if cmd == "rp":
+                regs = {k_: (ty, t) for k_, ty, t in b["regs"]}
+                ch = chr(op[2])
+                data = regs.get(ch) if ch in "abcdefghijklmnopqrstuvwxyz0123456789" else None
+                mode = "B" if op[3] else "A"
+            else:
+                data = b["ring"][0] if b["ring"] else ("c", "")
+                mode = "B" if cmd == "P" else "A"
+            want = T if data is None else paste_spec(T, c, data[0], data[1], mode, n)
+            if T2 != want:
+                bad(site, "pasted text != register x count", "paste")
+            if a["ring"] != b["ring"] or a["regs"] != b["regs"]:
+                bad(site, "registers changed by paste", "registers")
+        elif cmd == "vis":
+            ty, pa, pb, act, reg = op[2:7]
+            lo, hi = sorted([min(pa, len(T)), min(pb, len(T))])
+            site = f"vi visual {act}"
+            r1, r2 = T[:lo].count("\n"), T[:hi].count("\n")
+            valid_reg = reg is None or chr(reg) in "abcdefghijklmnopqrstuvwxyz0123456789"
+            if reg is None:
+                k = _pushed(b, a, maxsize, bad, site)
+                got = a["ring"][0] if k == 1 else None
+                if a["regs"] != b["regs"]:
+                    bad(site, "named registers changed", "registers")
+            else:
+                if a["ring"] != b["ring"]:
+                    bad(site, "unnamed register changed", "registers")
+                br = {k_: (t_, x_) for k_, t_, x_ in b["regs"]}
+                ar = {k_: (t_, x_) for k_, t_, x_ in a["regs"]}
+                ch = chr(reg)
+                if {k_: v for k_, v in ar.items() if k_ != ch} != {k_: v for k_, v in br.items() if k_ != ch}:
+                    bad(site, "other named registers changed", "registers")
+                got = ar.get(ch) if (ar.get(ch) != br.get(ch) or ch not in br) else None
+                if got is None and ch in ar and ar.get(ch) == br.get(ch):
+                    got = "same"
+            if ty == "c" or ty == "l":
+                if ty == "c":
+                    X = T[lo:hi + 1]
+                    stored = ("c", X)
+                    remaining = T[:lo] + T[hi + 1:]
+                    must_store = X != "" or act == "x"
+                else:
+                    s1 = T.rfind("\n", 0, lo) + 1
+                    e2 = T.find("\n", hi)
+                    e2 = len(T) if e2 < 0 else e2 + 1
+                    stored = ("l", "\n".join(lines[r1:r2 + 1]))
+                    remaining = T[:s1] + T[e2:]
+                    must_store = True
+                if T2 != (T if act == "y" else remaining):
+                    bad(site, "frame", "removed something else than the selection")
+                if valid_reg:
+                    if must_store and got is None:
+                        bad(site, "removed text not stored" if act != "y" else "yanked text not stored", "register")
+                    if got not in (None, "same") and got != stored:
+                        bad(site, "register != selected text", "register")
+                    if got == "same" and must_store and br.get(chr(reg)) != stored:
+                        bad(site, "register != selected text", "register")
+            else:
+                # BLOCK: what was removed is what was stored (the exact columns an operator uses on a
+                # block selection are span semantics, not checked here)
+                import collections
+                if act == "y" and T2 != T:
+                    bad(site, "frame", "yank changed the text")
+                if T2.count("\n") != T.count("\n") or len(T2.split("\n")) != len(lines):
+                    bad(site, "frame", "block cut removed a newline")
+                removed = collections.Counter(T) - collections.Counter(T2)
+                if got not in (None, "same"):
+                    if got[0] != "b":
+                        bad(site, "register type", "block selection must be stored as BLOCK")
+                    segs = got[1].split("\n")
+                    if act != "y" and collections.Counter("".join(segs)) != removed:
+                        bad(site, "register != removed text", "register")
+                    if act == "y":
+                        rows = lines[r1:]
+                        if len(segs) > len(rows) or any(sg not in rows[i] for i, sg in enumerate(segs) if i < len(rows)):
+                            pass
+                elif valid_reg and got is None and sum(removed.values()) > 0:
+                    bad(site, "removed text not stored", "register")
+        if len(a["ring"]) > maxsize:
+            bad(site, "ring longer than max_size", "ring")
+
+
 def oracle(case):
-    return []
+    v = []
+    seen = set()
+
+    def bad0(site, cond, msg):
+        sig = f"{site} | {cond}"
+        if sig not in seen:
+            seen.add(sig)
+            v.append({"signature": sig, "msg": msg})
+
+    k = case["kind"]
+    if k == "emacs":
+        for tr in get_trace(case):
+            oracle_emacs_seq(case, tr, bad0)
+    elif k == "vi":
+        for tr in get_trace(case):
+            oracle_vi_seq(case, tr, bad0)
+    elif k == "paste":
+        T = case["text"]
+        for cur, ty, data, mode, count in case["qs"]:
+            try:
+                d = Document(T, cur).paste_clipboard_data(ClipboardData(data, TY[ty]), paste_mode=MODE[mode],
+                                                          count=count)
+            except AssertionError:
+                if count >= 1:
+                    bad0("Document.paste_clipboard_data", "raises", f"text={T!r} q={[cur, ty, data, mode, count]}")
+                continue
+            if d.text != paste_spec(T, cur, ty, data, mode, count):
+                bad0("Document.paste_clipboard_data", f"{TY[ty].name} data not inserted unchanged x count",
+                     f"text={T!r} cur={cur} data={data!r} mode={mode} count={count} -> {d.text!r}")
+    elif k == "ring":
+        c = InMemoryClipboard(max_size=case["max"])
+        shadow = []
+        for op in case["ops"]:
+            if op[0] == "rot":
+                c.rotate()
+                shadow = shadow[1:] + shadow[:1]
+            else:
+                c.set_data(ClipboardData(op[2], TY[op[1]]))
+                shadow = ([(op[1], op[2])] + shadow)[:case["max"]]
+            ring = [(TYR[d.type], d.text) for d in c._ring]
+            g = c.get_data()
+            if ring != shadow or (TYR[g.type], g.text) != (shadow[0] if shadow else ("c", "")):
+                bad0("InMemoryClipboard." + ("rotate" if op[0] == "rot" else "set_data"),
+                     "entry lost / order", f"ops={case['ops']} ring={ring} expected={shadow}")
+    return v
 
 
 def sample_view(case):
